@@ -93,6 +93,7 @@ pub fn run(ctx: &Ctx) -> ! {
             x
         }));
     }
+    cfg.stream_share = 1.0;
     let stats = corpus::drive(
         ctx,
         &uni,
